@@ -286,7 +286,7 @@ func (w *sideWorld) registerStateValidators(keys []int) {
 	p := &neo3_state_manager.StateValidatorListParam{StateValidators: svs, Address: owner}
 	sink := common.NewZeroCopySink(nil)
 	p.Serialization(sink)
-	if r := w.Invoke(utils.Neo3StateManagerContractAddress, neo3_state_manager.REGISTER_STATE_VALIDATOR, sink.Bytes(), []common.Address{owner}); !r.OK() {
+	if r := invokeOn(w.World, utils.Neo3StateManagerContractAddress, neo3_state_manager.REGISTER_STATE_VALIDATOR, sink.Bytes(), []common.Address{owner}); !r.OK() {
 		panic("harness: registerStateValidator: " + r.Err.Error())
 	}
 	registered := func() bool {
@@ -304,7 +304,7 @@ func (w *sideWorld) registerStateValidators(keys []int) {
 		ap := &neo3_state_manager.ApproveStateValidatorParam{ID: 0, Address: v.Address}
 		s2 := common.NewZeroCopySink(nil)
 		ap.Serialization(s2)
-		if r := w.Invoke(utils.Neo3StateManagerContractAddress, neo3_state_manager.APPROVE_REGISTER_STATE_VALIDATOR, s2.Bytes(), []common.Address{v.Address}); !r.OK() {
+		if r := invokeOn(w.World, utils.Neo3StateManagerContractAddress, neo3_state_manager.APPROVE_REGISTER_STATE_VALIDATOR, s2.Bytes(), []common.Address{v.Address}); !r.OK() {
 			panic("harness: approveRegisterStateValidator: " + r.Err.Error())
 		}
 	}
